@@ -1,6 +1,6 @@
 // extract-mapranges: tie A for C14 (DESIGN.md section 3). Lists, with go/types, every `range`
-// over a map-typed expression (set.Set is a map type) and every call of an order-exposing method
-// of set.Set (Slice) in the generator packages of /repo, as file / function / ranged expression,
+// over a map-typed expression (set.Set is a map type), every call of an order-exposing method
+// of set.Set (Slice), every maps.Keys/Values/All iterator (with what consumes it), reflect MapKeys/MapRange and sync.Map.Range in the generator packages of /repo, as file / function / ranged expression,
 // into lean/Generated/MapRanges.lean.  It only extracts; Properties/C14.lean has to match every
 // listed site (with the fingerprint of what its loop body does) to an order-independence theorem or to a stated reason (obligation
 // `every_map_range_site_is_matched`), so a NEW site is an open obligation.
@@ -105,6 +105,31 @@ func leanStr(s string) string {
 	return `"` + s + `"`
 }
 
+// consumer names what directly consumes the value of call c: the enclosing call's callee, `range`,
+// or the kind of statement.
+func consumer(parents []ast.Node, c *ast.CallExpr) string {
+	for i := len(parents) - 1; i >= 0; i-- {
+		switch x := parents[i].(type) {
+		case *ast.ParenExpr:
+			continue
+		case *ast.CallExpr:
+			return norm(x.Fun)
+		case *ast.RangeStmt:
+			if x.X == ast.Expr(c) {
+				return "range"
+			}
+			return "range-body"
+		case *ast.AssignStmt:
+			return "assign"
+		case *ast.ReturnStmt:
+			return "return"
+		default:
+			return fmt.Sprintf("%T", x)
+		}
+	}
+	return "?"
+}
+
 func repoFromWorkspace(goWork string) string {
 	b, err := os.ReadFile(goWork)
 	if err != nil {
@@ -156,7 +181,13 @@ func main() {
 				if fd.Recv != nil && len(fd.Recv.List) == 1 {
 					fn = types.ExprString(fd.Recv.List[0].Type) + "." + fn
 				}
+				var parents []ast.Node
 				ast.Inspect(fd.Body, func(n ast.Node) bool {
+					if n == nil {
+						parents = parents[:len(parents)-1]
+						return true
+					}
+					defer func() { parents = append(parents, n) }()
 					switch x := n.(type) {
 					case *ast.RangeStmt:
 						if t := p.TypesInfo.TypeOf(x.X); t != nil {
@@ -166,10 +197,26 @@ func main() {
 						}
 					case *ast.CallExpr:
 						if s, ok := x.Fun.(*ast.SelectorExpr); ok {
+							// iterator over a map: maps.Keys / maps.Values / maps.All (package maps or
+							// golang.org/x/exp/maps), wherever it is consumed (range, slices.Collect, ...)
+							if id, ok := s.X.(*ast.Ident); ok {
+								if pn, ok := p.TypesInfo.Uses[id].(*types.PkgName); ok {
+									path := pn.Imported().Path()
+									if (path == "maps" || strings.HasSuffix(path, "/maps")) && (s.Sel.Name == "Keys" || s.Sel.Name == "Values" || s.Sel.Name == "All") {
+										sites = append(sites, site{rel, fn, "call " + types.ExprString(x.Fun), []string{"consumed-by:" + consumer(parents, x)}})
+									}
+								}
+							}
 							if t := p.TypesInfo.TypeOf(s.X); t != nil {
-								if nt, ok := t.(*types.Named); ok && nt.Obj().Pkg() != nil &&
-									nt.Obj().Pkg().Path() == "github.com/drshriveer/gtools/set" && s.Sel.Name == "Slice" {
-									sites = append(sites, site{rel, fn, "call " + types.ExprString(x.Fun), nil})
+								if nt, ok := t.(*types.Named); ok && nt.Obj().Pkg() != nil {
+									switch {
+									case nt.Obj().Pkg().Path() == "github.com/drshriveer/gtools/set" && s.Sel.Name == "Slice":
+										sites = append(sites, site{rel, fn, "call " + types.ExprString(x.Fun), nil})
+									case nt.Obj().Pkg().Path() == "reflect" && nt.Obj().Name() == "Value" && (s.Sel.Name == "MapKeys" || s.Sel.Name == "MapRange"):
+										sites = append(sites, site{rel, fn, "call " + types.ExprString(x.Fun), nil})
+									case nt.Obj().Pkg().Path() == "sync" && nt.Obj().Name() == "Map" && s.Sel.Name == "Range":
+										sites = append(sites, site{rel, fn, "call " + types.ExprString(x.Fun), nil})
+									}
 								}
 							}
 						}
